@@ -197,7 +197,7 @@ impl tokio::io::AsyncWrite for SendStream {
     }
 }
 
-#[cfg(feature = "verif-hooks")]
+#[cfg(feature = "verif-hooks-conn")]
 pub(crate) mod verif_hooks {
     //! Thin wrappers for the external verification harness.
     use super::*;
